@@ -2,6 +2,8 @@ import KyberModel.Proto.Dkg
 import KyberModel.Lib.DkgLemmas
 import KyberModel.Lib.DkgSet
 import KyberModel.Lib.DkgAlgebra
+import KyberModel.Lib.DkgInv
+import KyberModel.Lib.DkgAgree
 /-
 C11 — DKG (Pedersen, incl. resharing and fast-sync): honest parties agree on key, QUAL and consistent
 shares despite faults.
@@ -144,6 +146,38 @@ theorem dkg_share_on_output_polynomial (c : Cfg) (st : St) (r : Result) (hinv : 
   rw [h2] at h3; cases h3
   simp [h1, h2, h4]
 
+/-- **Through a whole fresh run, for every delivered history.** A node starts from its constructor
+state (optionally calls `Deals`), processes ANY list of deal bundles, ANY list of response bundles and —
+if it gets there — ANY list of justification bundles (valid, invalid, forged, duplicated, in any
+order). Whenever it outputs a result, its output share lies on its output commitment polynomial. -/
+theorem fresh_run_share_on_output_polynomial (c : Cfg) (hres : c.isResharing = false)
+    (st1 : St) (hst1 : st1 = initSt c ∨ ∃ b, deals c (initSt c) = .ok (st1, b))
+    (LD : List DealBundle) (st2 : St) (o : Option ResponseBundle) (h2 : processDeals c st1 LD = .ok (st2, o))
+    (LR : List ResponseBundle) (LJ : List JustBundle) (r : Result)
+    (hr : (processResponses c st2 LR).2 = .result (some r) ∨
+          (processJustifications c (processResponses c st2 LR).1 LJ).2 = .result (some r)) :
+    ((r.shareV : Nat) : ZMod c.q) = (toPoly c.q r.commits).eval ((r.shareI : ZMod c.q) + 1) := by
+  have i1 : SharesOnPublicsN c st1 ∧ OnlyOwnShare c st1 := by
+    rcases hst1 with rfl | ⟨b, hb⟩
+    · exact initSt_inv c
+    · exact deals_inv c _ _ b hb (initSt_inv c).1 (initSt_inv c).2
+  have i2 : SharesOnPublicsN c st2 := processDeals_inv c st1 st2 LD o h2 i1.1 i1.2
+  have fin : ∀ X : St, SharesOnPublicsN c X → (computeResult c X).2 = some r →
+      ((r.shareV : Nat) : ZMod c.q) = (toPoly c.q r.commits).eval ((r.shareI : ZMod c.q) + 1) := by
+    intro X hX hres'
+    obtain ⟨a, b, e⟩ := computeResult_fresh c hres X
+    rw [e] at hres'
+    exact dkg_share_on_output_polynomial c _ r
+      (sharesOnPublicsN_cast c _ (sharesOnPublicsN_of_priv c a b hX)) hres'
+  rcases hr with hr | hr
+  · obtain ⟨X, a, b, e⟩ := processResponses_result c st2 LR r hr
+    exact fin X (sharesOnPublicsN_of_priv c a b i2) e
+  · have i3 : SharesOnPublicsN c (processResponses c st2 LR).1 := by
+      obtain ⟨a, b⟩ := processResponses_priv c st2 LR
+      exact sharesOnPublicsN_of_priv c a b i2
+    have i4 := justFold_inv c LJ ((processResponses c st2 LR).1, fun _ => false) i3
+    exact fin _ i4 (processJustifications_result c _ LJ r hr)
+
 /-- **The key is the sum of the qualified dealers' contributions**: `Commits[0] = Σ_{d ∈ QUAL} P_d[0]`. -/
 theorem dkg_key_is_sum_of_qual (c : Cfg) (st : St) (r : Result) (h : computeDKGResult c st = some r) :
     ((r.commits.headD 0 : Nat) : ZMod c.q) =
@@ -189,5 +223,143 @@ theorem output_shares_recover (q : Nat) [Fact q.Prime] (hq2 : 2 < q) (cs : List 
   rw [h1, Option.some.injEq]
   apply (eq_iff_cast_eq _ _ h2 (Nat.mod_lt _ hq)).mpr
   rw [h3, toPoly_coeff_zero, ZMod.natCast_mod]
+
+/-! ### 3. Agreement
+
+Full statement (DESIGN §6 C11 (2)): two honest nodes fed the same broadcast history, whose own bundles
+in that history are the ones they produced, output — if both output — the same QUAL and the same
+commitment polynomial.
+
+* For the code AS IT STANDS this is FALSE: `agreement_fails_as_coded` exhibits, inside the model, a
+  broadcast history (two colluding dealers, `n - t = 2`) on which two honest nodes output different
+  QUAL and different public keys; the harness replays it on the real code
+  (known finding `agreement:finished-in-different-phases`, fixes/C11-agreement-phase-decision.patch).
+* For the repaired code the theorem is proved in parts (`…_partial`): the decision points are shown to
+  be functions of public data — the deal-phase view (`deal_phase_public_view`), the repaired
+  finish test (`finishTest_public`), the result as a function of the final public view
+  (`result_determined_by_public_view`) — and the repaired model agrees on the counterexample history
+  (`agreement_restored_on_that_history`). NOT proved: the four own-entry lemmas that carry the public
+  view through `ProcessResponses` / `ProcessJustifications` (a node skips its own response and
+  justification bundles, resets its own row when it justifies, and holds its own column privately
+  until it publishes it); agreement for fast-sync and resharing. The correspondence runs compare all
+  honest outputs with each other in every scenario (predicate `agreement`). -/
+
+/-- **Agreement fails for the code as it stands.** Nodes 5 and 11 are honest, see the same broadcast
+history (`exDeals`, no response bundle, `badJ`) and their own bundles in it are the ones they produced;
+node 5 finishes in `ProcessResponses` with QUAL = {2,5,11,14}, node 11 in `ProcessJustifications` with
+QUAL = {5,11,14}, and their commitment polynomials (public keys) differ. -/
+theorem agreement_fails_as_coded :
+    (runNode (ex5 false) false).map (·.qual) = some [2, 5, 11, 14] ∧
+    (runNode (ex11 false) false).map (·.qual) = some [5, 11, 14] ∧
+    (runNode (ex5 false) false).map (·.commits) ≠ (runNode (ex11 false) false).map (·.commits) := by
+  decide
+
+/-- With the repaired finish test the same history leaves both nodes (and node 14) with the same QUAL
+and the same commitments. -/
+theorem agreement_restored_on_that_history :
+    (runNode (ex5 true) true).map (·.qual) = some [2, 5, 11, 14] ∧
+    (runNode (ex11 true) true).map (·.qual) = some [2, 5, 11, 14] ∧
+    (runNode (ex14 true) true).map (·.qual) = some [2, 5, 11, 14] ∧
+    (runNode (ex5 true) true).map (·.commits) = (runNode (ex11 true) true).map (·.commits) ∧
+    (runNode (ex5 true) true).map (·.commits) = (runNode (ex14 true) true).map (·.commits) := by
+  decide
+
+/-- Two nodes have the same public configuration. -/
+structure SamePublicCfg (cA cB : Cfg) : Prop where
+  q : cA.q = cB.q
+  old : cA.oldNodes = cB.oldNodes
+  new : cA.newNodes = cB.newNodes
+  thr : cA.threshold = cB.threshold
+  nonce : cA.nonce = cB.nonce
+
+/-- **Agreement, part 1 (`agreement_partial`): the deal phase.** For a dealer that is neither of the
+two nodes, what the bundle loop of `ProcessDeals` does to `evicted` and `allPublics` is the same at
+both nodes: the list of mutations differs at most in the private `setStatus`/`setValid` pair. -/
+theorem deal_phase_public_view_partial (cA cB : Cfg) (h : SamePublicCfg cA cB) (seen : Bool) (b : DealBundle)
+    (hA : b.dealerIndex ≠ cA.oidx) (hB : b.dealerIndex ≠ cB.oidx) :
+    (dealPrims cA seen b).2 = (dealPrims cB seen b).2 ∧
+    ((dealPrims cA seen b).1.filter (fun p => match p with | .evict _ => true | .setPub _ _ => true | _ => false)) =
+    ((dealPrims cB seen b).1.filter (fun p => match p with | .evict _ => true | .setPub _ _ => true | _ => false)) := by
+  have hoA : (b.dealerIndex == cA.oidx) = false := by simpa using hA
+  have hoB : (b.dealerIndex == cB.oidx) = false := by simpa using hB
+  have hev := scanDeals_ev cA b b.deals false none
+  have hev' := scanDeals_ev cB b b.deals false none
+  rw [h.new] at hev
+  unfold dealPrims
+  simp only [hoA, hoB, Bool.and_false, Bool.false_eq_true, if_false, h.old, h.nonce, h.thr]
+  by_cases c2 : (!included cB.oldNodes b.dealerIndex) = true
+  · simp only [c2, if_true]; constructor <;> first | rfl | trivial
+  simp only [c2, if_false, Bool.false_eq_true]
+  by_cases c3 : (b.sid != cB.nonce) = true
+  · simp only [c3, if_true]; constructor <;> first | rfl | trivial
+  simp only [c3, if_false, Bool.false_eq_true]
+  by_cases c4 : (b.pub.isEmpty || b.pub.length != cB.threshold) = true
+  · simp only [c4, if_true]; constructor <;> first | rfl | trivial
+  simp only [c4, if_false, Bool.false_eq_true]
+  by_cases c5 : seen = true
+  · simp only [c5, if_true]; constructor <;> first | rfl | trivial
+  simp only [c5, if_false, Bool.false_eq_true]
+  rcases hsA : scanDeals cA b b.deals (false, none) with ⟨evA, shA⟩
+  rcases hsB : scanDeals cB b b.deals (false, none) with ⟨evB, shB⟩
+  rw [hsA] at hev; rw [hsB] at hev'
+  simp only at hev hev'
+  have : evA = evB := hev.trans hev'.symm
+  subst this
+  refine ⟨by first | rfl | trivial, ?_⟩
+  cases shA <;> cases shB <;> cases evA <;> simp [List.filter]
+
+/-- **Agreement, part 2 (`agreement_partial`): the repaired finish test reads only the evicted set and
+the rows of dealers that are not evicted.** -/
+theorem finishTest_public_partial (cA cB : Cfg) (h : SamePublicCfg cA cB) (hfA : cA.fixPhase = true) (hfB : cB.fixPhase = true)
+    (X Y : St) (hev : ∀ n ∈ cA.oldNodes, X.evicted n.index = Y.evicted n.index)
+    (hrow : ∀ n ∈ cA.oldNodes, X.evicted n.index = false → ∀ m ∈ cA.newNodes, X.statuses n.index m.index = Y.statuses n.index m.index) :
+    finishTest cA X = finishTest cB Y := by
+  unfold finishTest
+  simp only [hfA, hfB, if_true, ← h.old]
+  apply all_congr_mem
+  intro n hn
+  rw [← hev n hn]
+  cases he : X.evicted n.index with
+  | true => simp
+  | false =>
+    simp only [Bool.false_or]
+    unfold allTrue
+    rw [← h.new]
+    apply all_congr_mem
+    intro m hm
+    rw [hrow n hn he m hm]
+
+/-- **Agreement, part 3 (`agreement_partial`): the result is a function of the final public view.** If
+two nodes end with the same qualification verdict for every dealer and the same public polynomial for
+every qualified dealer, and both output a result, then QUAL and the commitment polynomial coincide. -/
+theorem result_determined_by_public_view_partial (cA cB : Cfg) (h : SamePublicCfg cA cB) (X Y : St)
+    (hqual : ∀ n ∈ cA.oldNodes, (allTrue cA X.statuses n.index && !X.evictedHolders n.index) =
+      (allTrue cB Y.statuses n.index && !Y.evictedHolders n.index))
+    (hpub : ∀ n ∈ cA.oldNodes, (allTrue cA X.statuses n.index && !X.evictedHolders n.index) = true →
+      X.allPublics n.index = Y.allPublics n.index)
+    (rA rB : Result) (hA : computeDKGResult cA X = some rA) (hB : computeDKGResult cB Y = some rB) :
+    rA.qual = rB.qual ∧ rA.commits = rB.commits := by
+  have hq : qualDealers cA X = qualDealers cB Y := by
+    unfold qualDealers
+    rw [← h.old]
+    apply filter_congr_mem
+    intro n hn
+    exact hqual n hn
+  rw [computeDKGResult_eq] at hA hB
+  split at hA
+  · rename_i sA fA heA
+    split at hB
+    · rename_i sB fB heB
+      cases hA; cases hB
+      refine ⟨by simp only [hq], ?_⟩
+      rw [← hq] at heB
+      have hp : ∀ n ∈ qualDealers cA X, X.allPublics n.index = Y.allPublics n.index := by
+        intro n hn
+        have := List.mem_filter.mp hn
+        exact hpub n this.1 this.2
+      have := dkg_fold_commits cA cB X Y h.q _ hp 0 0 none sA sB (some fA) (some fB) heA heB
+      simpa using this
+    · cases hB
+  · cases hA
 
 end Kyber.Dkg
